@@ -59,7 +59,10 @@ def gen_rgb(rng):
     for _ in range(rng.randint(1, 8)):
         k = rng.choice(["sc", "on", "off", "fade", "fade", "blink"])
         if k in ("sc", "on"):
-            ops.append(f"{k} {comp()} {comp()} {comp()}")
+            c3 = f"{comp()} {comp()} {comp()}"
+            ops.append(f"{k} {c3}")
+            if rng.random() < 0.3:      # blink with exactly the colour the LED already shows
+                ops.append(f"blink {c3} {tok(pick(rng, [1, 2, 3]))} {tok(pick(rng, [0, 200], [0.5]))}")
         elif k == "off":
             ops.append("off")
         elif k == "fade":
@@ -270,6 +273,10 @@ def _sleeps(last: str):
 
 
 CORPUS = [
+    "rgb|i9 i10 i11|on i255 i255 i255|blink i255 i255 i255 i2 i5",
+    "rgb|i9 i10 i11|sc i10 i20 i30|blink i10 i20 i30 i1 i0|fade i7 i7 i7 i10 i2|blink i7 i7 i7 i3 i1",
+    "motor|i2 i3 i5|rf i-1 f3fc999999999999a",
+    "motor|i2 i3 i5|ss f3fe0000000000000|rf fbfe0000000000000 f3fc999999999999a|inv",
     "motor|i2 i3 i5|stop|inv",
     "motor|i2 i3 i5|rf i10 f3fe0000000000000|inv|inv",
     "servo|i10 i170 i600 i2300|wu i2300|wu i1450|w i90",
